@@ -427,10 +427,10 @@ def rule_c(ctx: Context, R: Reporter, pred: FuncInfo):
 
 def run(ctx: Context, R: Reporter):
     bmap, pred = bounds_helpers(ctx)
-    rule_a(ctx, R, bmap)
-    rule_b(ctx, R, bmap)
-    rule_c(ctx, R, pred)
-    rule_d(ctx, R, bmap)
+    R.guard(rule_a, ctx, R, bmap)
+    R.guard(rule_b, ctx, R, bmap)
+    R.guard(rule_c, ctx, R, pred)
+    R.guard(rule_d, ctx, R, bmap)
 
 
 def variants():
